@@ -1,12 +1,17 @@
 """Leaf specs for C18 (simulation).
 
-The leaves of `simulation/sim.py`, `util/matrix.py` and `rdm/calc.py` that C18 depends on are
-*array* expressions (np.kron, np.identity, `@`), outside the scalar subset of py2lean.  This
-module therefore first *derives*, from the current source text (Python `ast`), the scalar
-entry-wise expression of each anchor and writes it as a tiny Python function into
-`harness/leaves/_C18_derived.py`; py2lean then translates those functions as usual
-(spec['file'] is that absolute path).  Nothing is cached: the derived file is rewritten from
-/repo's text every time the leaf list is loaded (i.e. on every run).
+Native py2lean leaves (translated straight from /repo's text):
+  noiseScale   make_dataset: `epsilon = ss.norm.ppf(epsilon) * np.sqrt(noise)`   (opaque calls)
+  exactScale   make_signal:  `true_U = Q.transpose() * np.sqrt(n_channel)`       (opaque calls)
+The Gram form and the normalisation of `calc_rdm_euclidean` are C01's leaves
+(`Rsa.Gen.C01.euclidEntry`, `euclidNorm`), used by `Rsa.Core.Sim` directly.
+
+The remaining leaves are *array* expressions (np.kron, np.identity, `@`, a masked assignment)
+outside the scalar subset of py2lean.  For those this module first *derives*, from the current
+source text (Python `ast`), the scalar entry-wise expression and writes it as a tiny Python
+function into `harness/leaves/_C18_derived.py`; py2lean then translates those functions as
+usual (spec['file'] is that absolute path; decimal literals such as -0.5 and 1e-15 are handled
+by py2lean natively).  Nothing is cached: the derived file is rewritten on every run.
 
 Derivations (each fails closed: an unexpected shape of the anchor gives a function calling
 `__underivable__`, which py2lean reports as an untranslatable leaf = broken obligation):
@@ -14,13 +19,11 @@ Derivations (each fails closed: an unexpected shape of the anchor gives a functi
   make_design   cond_vec = np.kron(A, B), part_vec = np.kron(A, B)
                 entry k of kron(a, b) is a[k // len(b)] * b[k % len(b)];
                 a, b are np.ones((n,)) (entry 1) or np.array(range(0, n)) (entry = index)
-  centering     np.identity(size) - np.ones(size) / size      -> delta - 1 / size
-  make_dataset  G = c * (H @ D @ H)                           -> (p * hdh) / q,  c = p/q
-                epsilon = ss.norm.ppf(epsilon) * np.sqrt(noise) -> z * sqrt_noise
+  centering     np.identity(size) - np.ones(size) / size        -> delta - 1 / size
+  make_dataset  G = -0.5 * (H @ D @ H)                          -> -0.5 * hdh
                 data = Zcond @ true_U * np.sqrt(signal) + epsilon -> zu * sqrt_signal + eps
-  calc_rdm_euclidean
-                rdm = ss + ss.T - 2 * np.dot(m, m.T)          -> ssa + ssb - 2 * dotab
-                rdm = _extract_triu_(rdm) / measurements.shape[1] -> x / n_channel
+  make_signal   eigval[eigval < 1e-15] = 0                      -> 0 if eigval < 1e-15 else eigval
+                n_channel raised to n_cond if smaller             -> n_cond if n_cond > n_channel else n_channel
 """
 import ast
 import os
@@ -132,30 +135,6 @@ def _kron_entry(fn, target):
     return ' * '.join(fs) if fs else '1'
 
 
-def _scaled(expr, inner_text, inner_name):
-    """`c * (inner)` or `-c * (inner)` with a float/int constant c = p/q  ->  (p * name) / q"""
-    if not (isinstance(expr, ast.BinOp) and isinstance(expr.op, ast.Mult)):
-        raise Underivable(f'`{ast.unparse(expr)}` is not const * ({inner_text})')
-    c, x = expr.left, expr.right
-    if ast.unparse(x) != inner_text:
-        c, x = x, c
-    if ast.unparse(x) != inner_text:
-        raise Underivable(f'`{inner_text}` not a factor of `{ast.unparse(expr)}`')
-    sign = 1
-    if isinstance(c, ast.UnaryOp) and isinstance(c.op, ast.USub):
-        sign, c = -1, c.operand
-    if not (isinstance(c, ast.Constant) and isinstance(c.value, (int, float))
-            and not isinstance(c.value, bool)):
-        raise Underivable(f'factor `{ast.unparse(c)}` is not a numeric literal')
-    fr = Fraction(c.value) * sign
-    if fr.denominator > 4096:
-        raise Underivable(f'constant {c.value!r} is not a small dyadic rational')
-    p, q = fr.numerator, fr.denominator
-    if p < 0:
-        return f'(0 - {-p} * {inner_name}) / {q}'
-    return f'({p} * {inner_name}) / {q}'
-
-
 def _derive():
     out = ['# DERIVED by harness/leaves/C18.py from the source tree under check - do not edit', '']
 
@@ -184,16 +163,8 @@ def _derive():
         hits = _assigns(_func('simulation/sim.py', 'make_dataset'), 'G')
         if len(hits) != 1:
             raise Underivable('expected one assignment to G')
-        return _scaled(hits[0].value, 'H @ D @ H', 'hdh')
+        return _substituted(hits[0].value, {'H @ D @ H': 'hdh'})
     emit('g_scale', ['hdh'], gscale)
-
-    def noise_scale():
-        hits = _assigns(_func('simulation/sim.py', 'make_dataset'), 'epsilon')
-        cands = [h for h in hits if 'ppf' in ast.unparse(h.value)]
-        if len(cands) != 1:
-            raise Underivable('expected one assignment epsilon = ss.norm.ppf(epsilon) * ...')
-        return _substituted(cands[0].value, {'ss.norm.ppf(epsilon)': 'z', 'np.sqrt(noise)': 'sqrt_noise'})
-    emit('noise_scale', ['z', 'sqrt_noise'], noise_scale)
 
     def data_entry():
         hits = _assigns(_func('simulation/sim.py', 'make_dataset'), 'data')
@@ -203,21 +174,31 @@ def _derive():
                                             'epsilon': 'eps'})
     emit('data_entry', ['zu', 'sqrt_signal', 'eps'], data_entry)
 
-    def euclid_gram():
-        hits = _assigns(_func('rdm/calc.py', 'calc_rdm_euclidean'), 'rdm')
-        if len(hits) != 2:
-            raise Underivable(f'expected two assignments to rdm, found {len(hits)}')
-        return _substituted(hits[0].value, {'sum_sq_measurements': 'ssa', 'sum_sq_measurements.T': 'ssb',
-                                            'np.dot(measurements, measurements.T)': 'dotab'})
-    emit('euclid_gram', ['ssa', 'ssb', 'dotab'], euclid_gram)
+    def eig_clamp():
+        fn = _func('simulation/sim.py', 'make_signal')
+        hits = [n for n in ast.walk(fn) if isinstance(n, ast.Assign) and len(n.targets) == 1
+                and isinstance(n.targets[0], ast.Subscript)
+                and ast.unparse(n.targets[0].value) == 'eigval']
+        if len(hits) != 1:
+            raise Underivable(f'expected one masked assignment to eigval, found {len(hits)}')
+        mask = hits[0].targets[0].slice
+        if not (isinstance(mask, ast.Compare) and ast.unparse(mask.left) == 'eigval'):
+            raise Underivable(f'mask `{ast.unparse(mask)}` is not a comparison on eigval')
+        return f'({ast.unparse(hits[0].value)} if {ast.unparse(mask)} else eigval)'
+    emit('eig_clamp', ['eigval'], eig_clamp)
 
-    def euclid_norm():
-        hits = _assigns(_func('rdm/calc.py', 'calc_rdm_euclidean'), 'rdm')
-        if len(hits) != 2:
-            raise Underivable(f'expected two assignments to rdm, found {len(hits)}')
-        return _substituted(hits[1].value, {'_extract_triu_(rdm)': 'x',
-                                            'measurements.shape[1]': 'n_channel'})
-    emit('euclid_norm', ['x', 'n_channel'], euclid_norm)
+    def gen_width():
+        fn = _func('simulation/sim.py', 'make_signal')
+        ifs = [n for n in fn.body if isinstance(n, ast.If) and 'n_channel_final' in ast.unparse(n)
+               and any(isinstance(b, ast.Assign) and ast.unparse(b.targets[0]) == 'n_channel' for b in n.body)]
+        if len(ifs) != 1:
+            raise Underivable('the `if n_cond > n_channel:` block of make_signal was not found')
+        node = ifs[0]
+        raised = [b for b in node.body if isinstance(b, ast.Assign) and ast.unparse(b.targets[0]) == 'n_channel']
+        if any(isinstance(b, ast.Assign) and ast.unparse(b.targets[0]) == 'n_channel' for b in node.orelse):
+            raise Underivable('n_channel is also reassigned in the else branch')
+        return f'({ast.unparse(raised[0].value)} if {ast.unparse(node.test)} else n_channel)'
+    emit('gen_width', ['n_cond', 'n_channel'], gen_width)
 
     text = '\n'.join(out)
     if not (os.path.exists(DERIVED) and open(DERIVED).read() == text):
@@ -235,12 +216,17 @@ LEAVES = [
     dict(name='centeringEntry', file=DERIVED, func='centering_entry', kind='func',
          params={'delta': 'A', 'size': 'A'}, ret='A'),
     dict(name='gScale', file=DERIVED, func='g_scale', kind='func', params={'hdh': 'A'}, ret='A'),
-    dict(name='noiseScale', file=DERIVED, func='noise_scale', kind='func',
-         params={'z': 'A', 'sqrt_noise': 'A'}, ret='A'),
     dict(name='dataEntry', file=DERIVED, func='data_entry', kind='func',
          params={'zu': 'A', 'sqrt_signal': 'A', 'eps': 'A'}, ret='A'),
-    dict(name='euclidGram', file=DERIVED, func='euclid_gram', kind='func',
-         params={'ssa': 'A', 'ssb': 'A', 'dotab': 'A'}, ret='A'),
-    dict(name='euclidNorm', file=DERIVED, func='euclid_norm', kind='func',
-         params={'x': 'A', 'n_channel': 'A'}, ret='A'),
+    dict(name='eigClamp', file=DERIVED, func='eig_clamp', kind='func', params={'eigval': 'A'}, ret='A'),
+    dict(name='genWidth', file=DERIVED, func='gen_width', kind='func',
+         params={'n_cond': 'Nat', 'n_channel': 'Nat'}, ret='Nat'),
+    # native: epsilon = ss.norm.ppf(epsilon) * np.sqrt(noise)   (2nd of the 4 assignments to epsilon)
+    dict(name='noiseScale', file='simulation/sim.py', func='make_dataset', kind='assign',
+         target='epsilon', nth=1, count=4, params={'z': 'A', 'sqrt_noise': 'A'}, ret='A',
+         opaque={'ss.norm.ppf(epsilon)': 'z', 'np.sqrt(noise)': 'sqrt_noise'}),
+    # native: true_U = Q.transpose() * np.sqrt(n_channel)       (4th of the 7 assignments to true_U)
+    dict(name='exactScale', file='simulation/sim.py', func='make_signal', kind='assign',
+         target='true_U', nth=3, count=7, params={'qt': 'A', 'sqrt_n': 'A'}, ret='A',
+         opaque={'Q.transpose()': 'qt', 'np.sqrt(n_channel)': 'sqrt_n'}),
 ]
